@@ -276,10 +276,37 @@ def stage_assignments(fx, nxt):
     return out
 
 
+def stage_assignments_with_helpers(fx, nxt):
+    """stage assignments of `next`, plus those made by `&mut self` helper methods it calls (attributed to the call site; a
+    helper assigning one of its parameters assigns the call's argument)"""
+    out = list(stage_assignments(fx, nxt))
+    for bb, t in nxt.calls():
+        hb = fx.body(callee_name(t)) if callee_name(t) else None
+        if hb is None or hb is nxt or "move_picker::MovePicker::" not in norm(hb.name) or hb.kind != "AssocFn":
+            continue
+        if not t["args"] or deep_strip(nxt.expr(t["args"][0], expand_named=True, at=bb)) != ("arg", 1, "self"):
+            continue
+        for hbb, j, st in hb.stmts():
+            if st["k"] == "assign" and st["lhs"]["l"] == 1 and [p.get("n") for p in st["lhs"].get("p", []) if isinstance(p, dict)] == ["stage"]:
+                rv = st["rv"]
+                if rv["k"] == "agg":
+                    out.append((bb, rv.get("variant"), t.get("line")))
+                elif rv["k"] == "use":
+                    e = deep_strip(hb.expr(rv["op"], expand_named=True, at=hbb))
+                    if isinstance(e, tuple) and e[0] == "agg":
+                        out.append((bb, str(e[1]).split("::")[-1], t.get("line")))
+                    elif isinstance(e, tuple) and e[0] == "arg" and 1 <= e[1] <= len(t["args"]):
+                        a = deep_strip(nxt.expr(t["args"][e[1] - 1], expand_named=True, at=bb))
+                        out.append((bb, str(a[1]).split("::")[-1] if isinstance(a, tuple) and a[0] == "agg" else None, t.get("line")))
+                    else:
+                        out.append((bb, None, t.get("line")))
+    return out
+
+
 def rule_stage(fx, rep, nxt):
     ok = True
     order = {v["name"]: v["discr"] for v in fx.adt("move_picker::GenStage")["variants"]}
-    asg = stage_assignments(fx, nxt)
+    asg = stage_assignments_with_helpers(fx, nxt)
     n = 0
     for (bb, v, line) in asg:
         n += 1
@@ -302,7 +329,7 @@ def rule_loud(fx, rep, nxt):
     ok = True
     n = 0
     quiet_side = {"GenQuiets", "Killer1", "Killer2", "CounterMove", "ScoreQuiets", "Quiets"}
-    for (bb, v, line) in stage_assignments(fx, nxt):
+    for (bb, v, line) in stage_assignments_with_helpers(fx, nxt):
         cur = None
         for (e, pol, w) in guard_conditions(nxt, bb, expand_named=True):
             g = stage_guard(nxt, e, pol)
@@ -327,7 +354,17 @@ def rule_loud(fx, rep, nxt):
             return None
         r = deep_strip(paths[0][1])
         if isinstance(r, tuple) and r[0] == "agg" and str(r[1]).endswith("MovePicker::MovePicker") and len(r[2]) == len(fields):
-            return dict(zip(fields, r[2]))
+            m = dict(zip(fields, r[2]))
+            # struct-update syntax `..Self::new(None)`: a field copied out of another constructor's result
+            for k, v in list(m.items()):
+                d = deep_strip(v)
+                if depth > 0 and isinstance(d, tuple) and d[0] == "field" and isinstance(deep_strip(d[1]), tuple) and deep_strip(d[1])[0] == "call":
+                    c = deep_strip(d[1])
+                    if isinstance(c[1], str) and "MovePicker::" in c[1] and fx.body(c[1]) is not None:
+                        inner = ctor_value(fx.body(c[1]), depth - 1)
+                        if inner is not None and d[2] in inner:
+                            m[k] = substitute_args(inner[d[2]], c[2])
+            return m
         if depth > 0 and isinstance(r, tuple) and r[0] == "call" and isinstance(r[1], str) and fx.body(r[1]) is not None and "MovePicker::" in r[1]:
             inner = ctor_value(fx.body(r[1]), depth - 1)
             if inner is not None:
